@@ -572,8 +572,12 @@ class XPathToken(Token[ta.XPathTokenType]):
                 case Integer():
                     if isinstance(op2, (str, AbstractQName, AnyURI, bool)):
                         raise TypeError(msg.format(type(op1), type(op2)))
+                    elif isinstance(op2, float):
+                        yield float(op1), op2  # type promotion to xs:double/xs:float
+                        continue
                 case float():
-                    if isinstance(op2, decimal.Decimal):
+                    if isinstance(op2, decimal.Decimal) or \
+                            isinstance(op2, int) and not isinstance(op2, bool):
                         yield op1, float(op2)
                         continue
                     elif isinstance(op2, (str, AbstractQName, AnyURI, bool)):
